@@ -62,9 +62,13 @@ func genC01(r *h.Rng, tier string, idx int) *h.Plan {
 	ids := func(loc string) []string {
 		return []string{"r1" + loc, "r2" + loc, "r3" + loc, "r4" + loc}
 	}
+	// anchors: plain facts that rules name in deleteWith - a rule also goes away as a
+	// dependent (of a removed, overwritten-away or expired anchor), not only by RemRule
+	anchors := func(loc string) []string { return []string{"a1" + loc, "a2" + loc} }
 	var allIds []string
 	for _, l := range locs {
 		allIds = append(allIds, ids(l)...)
+		allIds = append(allIds, anchors(l)...)
 	}
 	p.Cfg["ids"] = toIface(allIds)
 	// parents: L0 <- L1 <- L2 chain or fan, set up front or changed later
@@ -110,16 +114,34 @@ func genC01(r *h.Rng, tier string, idx int) *h.Plan {
 	if lookalike {
 		p.Cfg["mode"] = "lookalike"
 	}
+	boolArrays := false
 	for i := 0; i < n; i++ {
 		loc := r.Pick(locs)
-		switch r.Weighted([]int{10, 3, 2, 2, 1, 1, 2, 1}) {
+		switch r.Weighted([]int{10, 3, 2, 2, 1, 1, 2, 1, 2, 2}) {
+		case 8:
+			f := map[string]interface{}{"anchor": loc}
+			if r.P(1, 3) {
+				f["ttl"] = fmt.Sprintf("%ds", r.Range(5, 60))
+			}
+			p.Ops = append(p.Ops, h.Op{K: "addfact", Loc: loc, Id: r.Pick(anchors(loc)), J: f})
+		case 9:
+			p.Ops = append(p.Ops, h.Op{K: "remfact", Loc: loc, Id: r.Pick(anchors(loc))})
 		case 0:
 			w := genWhen(r)
 			if lookalike && r.P(2, 3) {
 				w = h.CloneMap(lookWhens[r.Intn(len(lookWhens))])
 			}
+			if r.P(1, 15) {
+				// an array of booleans: a set like any other array
+				w = map[string]interface{}{"flags": r.PickAny([]interface{}{[]interface{}{false, true}, []interface{}{true, false}, []interface{}{true}}).([]interface{})}
+				boolArrays = true
+			}
 			whens = append(whens, w)
 			rule := genRuleBody(r, w, false)
+			var dw interface{}
+			if r.P(1, 4) {
+				dw = []interface{}{r.Pick(anchors(loc))}
+			}
 			if r.P(1, 8) {
 				rule = map[string]interface{}{"schedule": "+1h", "action": map[string]interface{}{"code": "1"}}
 			}
@@ -129,6 +151,12 @@ func genC01(r *h.Rng, tier string, idx int) *h.Plan {
 			id := r.Pick(ids(loc))
 			if r.P(1, 10) {
 				id = ""
+			}
+			if dw != nil {
+				if _, sched := rule["schedule"]; !sched {
+					// (AddRule takes deleteWith from the rule's own body)
+					rule["deleteWith"] = dw
+				}
 			}
 			p.Ops = append(p.Ops, h.Op{K: "addrule", Loc: loc, Id: id, J: rule})
 		case 1:
@@ -172,6 +200,9 @@ func genC01(r *h.Rng, tier string, idx int) *h.Plan {
 		if p.Cfg["state"] == "linear" {
 			events = append(events, map[string]interface{}{"tags": []interface{}{1.0, "1"}})
 		}
+	}
+	if boolArrays {
+		events = append(events, map[string]interface{}{"flags": []interface{}{true, false}}, map[string]interface{}{"flags": []interface{}{false, true}, "kind": "x"})
 	}
 	p.Cfg["events"] = events
 	_ = fmt.Sprint
